@@ -8,6 +8,7 @@ import (
 	"pgregory.net/rapid"
 
 	"github.com/free5gc/go-upf/internal/verif/pipeline"
+	"github.com/free5gc/go-upf/internal/verif/rxwindow"
 	"github.com/free5gc/go-upf/internal/verif/sessmodel"
 	"github.com/free5gc/go-upf/internal/verif/stack"
 	"github.com/free5gc/go-upf/internal/verif/vcore"
@@ -52,6 +53,17 @@ func account(c sessmodel.Case, r sessmodel.Result) {
 	}
 }
 
+// runWindow: a request re-using an (address, sequence number) after the retention window gets its own answer (package rxwindow).
+func runWindow(t vcore.Failer, c rxwindow.Case) {
+	v, st := rxwindow.Run(c)
+	vcore.E.Eval()
+	vcore.E.Class("sequence_number_reused_after_window")
+	if st.Keys >= 2 {
+		vcore.E.NonTrivial(vcore.JSON(c))
+	}
+	vcore.Report(t, v, map[string]any{"window": c})
+}
+
 // runPipeline: several peers' requests in flight at once, queued behind a parked event loop (package pipeline).
 func runPipeline(t vcore.Failer, c pipeline.Case) {
 	v, st := pipeline.Run(c)
@@ -86,6 +98,7 @@ func TestC08(t *testing.T) {
 		var w struct {
 			sessmodel.Case
 			Pipeline *pipeline.Case `json:"pipeline"`
+			Window   *rxwindow.Case `json:"window"`
 		}
 		if err := vcore.LoadReplayCase(f, &w); err != nil {
 			t.Fatalf("replay %s: %v", f, err)
@@ -93,6 +106,11 @@ func TestC08(t *testing.T) {
 		if w.Pipeline != nil {
 			vcore.E.Class("replayed")
 			runPipeline(t, *w.Pipeline)
+			continue
+		}
+		if w.Window != nil {
+			vcore.E.Class("replayed")
+			runWindow(t, *w.Window)
 			continue
 		}
 		c := w.Case
@@ -106,6 +124,9 @@ func TestC08(t *testing.T) {
 	}
 	vcore.Check(t, vcore.N(150, 1200), func(rt *rapid.T) {
 		runPipeline(rt, pipeline.Gen(rt))
+	})
+	vcore.Check(t, vcore.N(12, 80), func(rt *rapid.T) {
+		runWindow(rt, rxwindow.Gen(rt))
 	})
 	// one fixed scenario lets a full second pass between answers: recovery
 	// time stamps have one-second resolution, so a per-response clock read
